@@ -4,3 +4,13 @@ claim('C07',
       note="Trusted: fractions.Fraction arithmetic and my Lagrange weights; tolerance 1e-12*k*sum|w_i||y_i|. Entries within half a decade of fail_mag and log-extrapolations that under/overflow double range are not judged.",
       technique="property-based testing (Hypothesis) against an exact rational Lagrange oracle",
       design_ref="DESIGN.md 3/C07")
+claim('C08',
+      text="Exhaustive comparison of the projection weights with exact rational hypergeometric probabilities for all 1<=m<=n<=40 (two evaluation orders, so the memo key is exercised), random triples up to n=200, and generated spectra of 1-4 dimensions with masks/labels/folding checked entry by entry and mask bit by mask bit against an independent implementation; plus conservation, two-stage, axis-order, neutral fixed point and refusal of upward projection.",
+      note="Trusted: math.comb/Fraction. dadi's unfold() masks the two corners (constructor default); the folded relation models that. Spectra above 4 dimensions are not generated.",
+      technique="exhaustive enumeration of (n,m,hits) for n<=40 plus property-based testing (Hypothesis) against an exact hypergeometric oracle",
+      design_ref="DESIGN.md 3/C08")
+claim('C09',
+      text="Generated spectra of 1-5 dimensions with arbitrary masks are folded, mirrored, unfolded and misidentified and compared, values and mask bits, with explicit index-loop oracles; every binary, reflected and in-place operator is run against plain-numpy arithmetic with attribute checks, and mixed folded/unfolded arithmetic must raise.",
+      note="Trusted: harness/refs/folding.py. fold()/unfold() results are built with mask_corners=True, so the absent/fixed corner bits are forced masked in the oracle. Likelihood evaluation is checked only when some entry is unmasked in both spectra.",
+      technique="property-based testing (Hypothesis) against explicit index-loop oracles and algebraic laws",
+      design_ref="DESIGN.md 3/C09")
